@@ -187,6 +187,16 @@ func runC13(o *out, thorough bool, r *rng, _ []string) map[string]interface{} {
 		o.run(1301, fs, true)
 		o.countN("random-ops", len(fs))
 	}
+	// many transactions expiring in ONE Collect (on both sides of the 100 the library pre-allocates for)
+	for _, k := range []int{99, 100, 101, 150, 257, 300} {
+		var fs []string
+		for id := 1; id <= k; id++ {
+			fs = append(fs, fNums(1, id, 5+id%3))
+		}
+		fs = append(fs, fNums(1, k+1, 50), fNums(4, 9), fNums(4, 9), fNums(2, k+1, 0), fNums(6))
+		o.run(1301, fs, true)
+		o.count("mass-expiry-histories")
+	}
 	return map[string]interface{}{"exhaustive": false,
 		"exhaustive_part": fmt.Sprintf("all %d^%d histories of length %d over Start(3 ids x 2 deadlines), Stop(3 ids), StopWithError, Process(3 ids), Collect(4 times), SetHandler, Close: every reachable abstract table state up to that depth with every operation", len(alphabet), depth, depth)}
 }
